@@ -409,7 +409,137 @@ def gen_error_table():
     return write_if_changed("ErrorTable.v", "\n".join(out))
 
 
-GENERATORS = [("FrameTable.v", gen_frame_table), ("ErrorTable.v", gen_error_table)]
+# ----------------------------------------------------------------------------------------
+# transport parameters
+# ----------------------------------------------------------------------------------------
+
+PVT = {"VarInt": "VTVarInt", "Boolean": "VTBoolean", "Bytes": "VTBytes", "Duration": "VTDuration",
+       "ResetToken": "VTResetToken", "ConnectionId": "VTConnectionId", "PreferredAddress": "VTPreferredAddress"}
+
+
+def const_value(name):
+    """numeric constants that may appear in `bound = a..=b`"""
+    if name == "VARINT_MAX":
+        src = strip_comments(read("qbase/src/varint.rs"))
+        m = re.search(r"pub\s+const\s+VARINT_MAX\s*:\s*u64\s*=\s*(0x[0-9a-fA-F_]+)", src)
+        if not m:
+            raise TableError("VARINT_MAX not found")
+        return int(m.group(1).replace("_", ""), 0)
+    if name == "MAX_STREAMS_LIMIT":
+        src = strip_comments(read("qbase/src/sid.rs"))
+        m = re.search(r"pub\s+const\s+MAX_STREAMS_LIMIT\s*:\s*u64\s*=\s*\(1\s*<<\s*(\d+)\)\s*-\s*1", src)
+        if not m:
+            raise TableError("MAX_STREAMS_LIMIT not found")
+        return (1 << int(m.group(1))) - 1
+    raise TableError("unknown constant %s in a parameter bound" % name)
+
+
+def num(tok):
+    tok = tok.strip()
+    if re.fullmatch(r"(0x[0-9a-fA-F_]+|\d[\d_]*)(u32|u64)?", tok):
+        return int(re.sub(r"(u32|u64)$", "", tok).replace("_", ""), 0)
+    if re.fullmatch(r"[A-Z_]+", tok):
+        return const_value(tok)
+    raise TableError("cannot evaluate %r" % tok)
+
+
+def gen_param_table():
+    src = strip_comments(read("qbase/src/param/core.rs"))
+    body = block_after(src, r"pub\s+enum\s+ParameterId", "enum ParameterId")
+    rows = []
+    for m in re.finditer(r"#\[param\(([^\]]*)\)\]\s*(\w+)\s*=\s*(0x[0-9a-fA-F]+|\d+)\s*,", body):
+        attrs, name, code = m.group(1), m.group(2), int(m.group(3), 0)
+        vt = re.search(r"value_type\s*=\s*(\w+)", attrs)
+        if not vt or vt.group(1) not in PVT:
+            raise TableError("parameter %s: value_type not understood" % name)
+        bound = None
+        mb = re.search(r"bound\s*=\s*([^,]+?)\.\.=([^,]+)$", attrs.strip())
+        if not mb:
+            mb = re.search(r"bound\s*=\s*([^,]+?)\.\.=([^,]+),", attrs)
+        if "bound" in attrs:
+            if not mb:
+                raise TableError("parameter %s: bound not understood: %s" % (name, attrs))
+            bound = (num(mb.group(1)), num(mb.group(2)))
+        default = None
+        md = re.search(r"default\s*=\s*(Duration::ZERO|Duration::from_millis\((\d+)\)|(\d+)u32)", attrs)
+        if "default" in attrs:
+            if not md:
+                raise TableError("parameter %s: default not understood: %s" % (name, attrs))
+            default = 0 if md.group(1) == "Duration::ZERO" else int(md.group(2) or md.group(3))
+        rows.append((name, code, vt.group(1), default, bound))
+    nvariants = len(re.findall(r"^\s*(\w+)\s*=\s*(?:0x[0-9a-fA-F]+|\d+)\s*,", body, re.M))
+    if not rows or len(rows) != nvariants:
+        raise TableError("could not parse every ParameterId variant (%d of %d)" % (len(rows), nvariants))
+    # belong_to
+    bt = block_after(src, r"pub\s+fn\s+belong_to", "ParameterId::belong_to")
+    mb = block_after(bt, r"match\s+self\s*", "match in belong_to")
+    server_only, client_only = set(), set()
+    seen_default = False
+    for pat, rhs in split_arms(mb):
+        pat = re.sub(r"\s+", " ", pat)
+        if pat == "_":
+            if re.sub(r"\s+", "", rhs) != "Ok(())":
+                raise TableError("belong_to default arm changed")
+            seen_default = True
+            continue
+        m = re.fullmatch(r"((?:ParameterId::\w+\s*\|?\s*)+) if role != Role::(Server|Client)", pat)
+        if not m or "Err(Error::InvalidParameterId" not in rhs:
+            raise TableError("belong_to arm not understood: %s" % pat)
+        names = re.findall(r"ParameterId::(\w+)", m.group(1))
+        (server_only if m.group(2) == "Server" else client_only).update(names)
+    if not seen_default:
+        raise TableError("belong_to has no default arm")
+    known = set(r[0] for r in rows)
+    if not (server_only | client_only) <= known:
+        raise TableError("belong_to names unknown parameters")
+    # required parameters per role
+    rsrc = strip_comments(read("qbase/src/role.rs"))
+    req = {}
+    for role in ("Client", "Server"):
+        b = block_after(rsrc, r"impl\s+RequiredParameters\s+for\s+%s" % role, "RequiredParameters for " + role)
+        req[role] = re.findall(r"ParameterId::(\w+)", b)
+        if not req[role] or not set(req[role]) <= known:
+            raise TableError("required parameters of %s not understood" % role)
+    # error -> QuicError kind
+    esrc = strip_comments(read("qbase/src/param/error.rs"))
+    eb = block_after(esrc, r"impl\s+From<Error>\s+for\s+QuicError", "From<param::Error> for QuicError")
+    kinds = set(re.findall(r"QuicErrorKind::(\w+)", eb))
+    if len(kinds) != 1:
+        raise TableError("param error mapping names %d kinds" % len(kinds))
+    codes, _ = error_kind_codes()
+    kind = kinds.pop()
+
+    def opt(v):
+        return "None" if v is None else "(Some %d)" % v
+
+    out = ["(* GENERATED by tools/extract_tables.py from qbase/src/param/core.rs, param/error.rs, role.rs — do not edit *)",
+           "From Coq Require Import List ZArith Bool String.", "From GQ Require Import Lib.ParamTypes.", "Import ListNotations.",
+           "Local Open Scope Z_scope.", "",
+           "(* (id, value type, default, bound) in declaration order *)",
+           "Definition param_table : list param_row := ["]
+    out.append(";\n".join('  mk_param %d %s %s %s  (* %s *)' % (code, PVT[vt], opt(d), ("None" if b is None else "(Some (%d, %d))" % b), name)
+                          for name, code, vt, d, b in rows).replace(")  (*", ") (*"))
+    # fix: comments must not sit before the separators
+    body_rows = []
+    for name, code, vt, d, b in rows:
+        body_rows.append("  (* %s *) mk_param %d %s %s %s" % (name, code, PVT[vt], opt(d), ("None" if b is None else "(Some (%d, %d))" % b)))
+    out[-1] = ";\n".join(body_rows)
+    out += ["].", ""]
+    byname = dict((r[0], r[1]) for r in rows)
+    for name, code, vt, d, b in rows:
+        out.append("Definition PID_%s : Z := %d." % (re.sub(r"(?<!^)(?=[A-Z])", "_", name).upper(), code))
+    out += ["", "(* ParameterId::belong_to: ids only a server / only a client may send *)",
+            "Definition server_only_params : list Z := [%s]." % "; ".join(str(byname[n]) for n in sorted(server_only, key=lambda n: byname[n])),
+            "Definition client_only_params : list Z := [%s]." % "; ".join(str(byname[n]) for n in sorted(client_only, key=lambda n: byname[n])),
+            "", "(* RequiredParameters: ids that must be present in the parameters sent by a client / by a server *)",
+            "Definition required_client : list Z := [%s]." % "; ".join(str(byname[n]) for n in req["Client"]),
+            "Definition required_server : list Z := [%s]." % "; ".join(str(byname[n]) for n in req["Server"]),
+            "", "(* From<param::Error> for QuicError: %s *)" % kind,
+            "Definition param_error_kind : Z := %d." % codes[kind], ""]
+    return write_if_changed("ParamTable.v", "\n".join(out))
+
+
+GENERATORS = [("FrameTable.v", gen_frame_table), ("ErrorTable.v", gen_error_table), ("ParamTable.v", gen_param_table)]
 
 
 def regen_all(only=None):
